@@ -8,12 +8,12 @@ import os
 V = os.path.dirname(os.path.dirname(os.path.abspath(__file__)))
 
 T = {
-    "C01": ("stateless bounded-exhaustive exploration: all lattices of the axis alphabet x all cells/faces/outside probes vs exact rational lattice", "5 C01"),
-    "C02": ("stateless bounded-exhaustive exploration over value-specification kinds x meshes x dtypes vs reference evaluator", "5 C02"),
+    "C01": ("stateless bounded-exhaustive exploration: all lattices of the axis alphabet x all cells/faces/outside probes vs exact rational lattice; depth-2 histories of in-place/copying transformations and caller-side aliasing, the whole description re-checked in every state", "5 C01"),
+    "C02": ("stateless bounded-exhaustive exploration over value-specification kinds x meshes x dtypes vs reference evaluator; values assigned in non-initial states (mesh used, then transformed in place)", "5 C02"),
     "C03": ("bounded-exhaustive exploration over expression programs (all trees up to depth bound) vs NumPy reference interpreter", "5 C03"),
     "C04": ("bounded-exhaustive exploration: all 2^L validity patterns x order x bc x restrict on the real diff, run/polynomial/locality/ring oracle", "5 C04"),
     "C05": ("bounded-exhaustive exploration: all mapping permutations x dims x polynomial and impulse bases vs exact polynomial calculus", "5 C05"),
-    "C06": ("bounded-exhaustive exploration: all direction orders/subsets on impulse bases vs exact rational sums", "5 C06"),
+    "C06": ("bounded-exhaustive exploration: all direction orders/subsets on impulse bases vs exact rational sums; operation sequences on one object (reuse, in-place transformation, complex/int values)", "5 C06"),
     "C07": ("bounded-exhaustive exploration: all aligned boxes, all range pairs, pads, resamplings vs exact lattice position oracle", "5 C07"),
     "C08": ("explicit-state search over operation programs (depth-bounded BFS on live fields) vs mask algebra + aliasing test", "5 C08"),
     "C09": ("bounded-exhaustive exploration of write/read configurations + fault enumeration (every truncation offset, every check-value corruption)", "5 C09"),
@@ -35,7 +35,7 @@ LEVEL_TEXT = ("Bounded-exhaustive model checking of the implementation itself: a
               "the stated bounds, running the real library on each and comparing with an exact reference model. "
               "This is the right level for a property that is universally quantified over inputs/configurations/histories of a "
               "sequential numerical library: no sampling, exact oracles, small-scope completeness.")
-NOTE = ("Trusted base: the dfmc explorer (self-tested by setup_cmd), the reference models under /verif/mc and in the check "
+NOTE = ("Every check also explores short operation histories on live objects (use, change through a public route, use again) with a differential oracle against a freshly built object; violations that depend on earlier executions in the same process are replayed in a fresh interpreter and reported with the minimised sequence. Trusted base: the dfmc explorer (self-tested by setup_cmd), the reference models under /verif/mc and in the check "
         "module, NumPy/SciPy and the installed third-party readers used as observers. Holds inside the alphabets and "
         "bounds recorded in the evidence file; continuous quantifiers are covered only via the linearity arguments stated there.")
 
